@@ -131,10 +131,31 @@ fn resolving_names(m: &Model, root: Lid) -> Vec<(Lid, String, bool)> {
     out
 }
 
-/// clause 1: serialisation is an error or resolves to the model's names
-fn check_serialisation(w: &World, root: Lid, stats: &mut Stats) -> Result<Option<String>, Violation> {
+/// a deterministic stand-in for a user-supplied `Normalizer` (Unicode normalization is meant for
+/// character data): rewrites characters that occur in the generated local names, prefixes and
+/// namespace names, so that a serialiser that lets it touch a name or a namespace name shows
+struct NameHostileNormalizer;
+impl xot::output::Normalizer for NameHostileNormalizer {
+    fn normalize<'a>(&self, content: std::borrow::Cow<'a, str>) -> std::borrow::Cow<'a, str> {
+        if content.contains(['a', 'p', 'x', 'n', '\u{e9}']) {
+            std::borrow::Cow::Owned(content.replace('a', "A").replace('p', "P").replace('x', "X").replace('n', "N").replace('\u{e9}', "e\u{301}"))
+        } else {
+            content
+        }
+    }
+}
+
+/// clause 1: serialisation is an error or resolves to the model's names; `normalized` selects the
+/// entry point that takes a normalizer
+fn check_serialisation(w: &World, root: Lid, stats: &mut Stats, normalized: bool) -> Result<Option<String>, Violation> {
     let h = w.h(root);
-    let text = match real_call(|| w.xot.to_string(h)) {
+    let produced = if normalized {
+        stats.inc("probe/c10_serialisations_with_normalizer");
+        real_call(|| w.xot.serialize_xml_string_with_normalizer(Default::default(), h, NameHostileNormalizer))
+    } else {
+        real_call(|| w.xot.to_string(h))
+    };
+    let text = match produced {
         Ok(Ok(t)) => t,
         Ok(Err(_)) => {
             stats.inc("probe/c10_serialisation_refused");
@@ -287,7 +308,11 @@ fn extra(pre: &World, post: &mut World, t: &TraceOp, info: &StepInfo, stats: &mu
         .filter(|r| post.handles.contains_key(r) && matches!(post.model.k(*r), K::Doc | K::Elem))
         .collect();
     for r in &roots {
-        if let Err(e) = check_serialisation(post, *r, stats) {
+        if let Err(e) = check_serialisation(post, *r, stats, false) {
+            return vec![e];
+        }
+        // the entry point with a user-supplied normalizer: names and namespace names are not its business
+        if let Err(e) = check_serialisation(post, *r, stats, true) {
             return vec![e];
         }
     }
@@ -335,7 +360,7 @@ fn extra(pre: &World, post: &mut World, t: &TraceOp, info: &StepInfo, stats: &mu
                 continue;
             }
             stats.inc("probe/c10_nested_elements_serialised");
-            if let Err(e) = check_serialisation(post, pick, stats) {
+            if let Err(e) = check_serialisation(post, pick, stats, k == 1) {
                 return vec![e];
             }
         }
